@@ -408,6 +408,23 @@ func runEnc(c *vh.Ctx, in Input) {
 		nk = vh.Hex(b)
 	}
 	c.Case("case", vh.App("CEnc", vh.Pair(coqSeq(seq, true), vh.OptBytes(b, ok))), in, nk)
+	if ok {
+		onlyStr := true
+		for _, r := range seq {
+			for _, a := range r {
+				if _, isStr := a.Value.(string); !isStr || !validOid(a.Type) {
+					onlyStr = false // (non-strings may be anything; an arc above MaxInt32 marshals but is outside the decoder's range)
+				}
+			}
+		}
+		if back, rest, dok := zUnmarshal(b); onlyStr && (!dok || len(rest) != 0) {
+			c.Violation("enc-decode-own-output", fmt.Sprintf("asn1.Marshal(RDNSequence) = %x is not accepted back by asn1.Unmarshal", b), "enc", in)
+			return
+		} else if onlyStr && len(back) != len(seq) {
+			c.Violation("enc-decode-own-output", "decoding the marshalled sequence yields a different number of RDNs", "enc", in)
+			return
+		}
+	}
 	sb, serr := stdasn1.Marshal(stdSeq(seq))
 	if (serr == nil) != ok {
 		c.Violation("enc-accept", fmt.Sprintf("asn1.Marshal(RDNSequence) ok=%v, standard library ok=%v", ok, serr == nil), "enc", in)
@@ -516,6 +533,10 @@ func runRT(c *vh.Ctx, in Input) {
 		nk = vh.Hex(der)
 	}
 	c.Case("case", vh.App("CRt", vh.Pair(coqName(&n), obs)), in, nk)
+	if ok && !good && encodable { // (an OID arc above MaxInt32 marshals but is outside the decoder's range: not encodable)
+		c.Violation("rt-decode-own-output", fmt.Sprintf("asn1.Marshal(ToRDNSequence()) = %x is not accepted back by asn1.Unmarshal (or leaves trailing bytes)", der), "rt", in)
+		return
+	}
 	if encodable != good {
 		c.Violation("rt-accept", fmt.Sprintf("name with encodable=%v: marshal ok=%v, unmarshal+fill ok=%v", encodable, ok, good), "rt", in)
 		return
@@ -600,7 +621,7 @@ func inSetOrder(oid []int, vals []string) bool {
 // ---- generators ----
 var pool = []string{
 	"", "US", "Acme Co", "Example Org", "a", "aa", "ab", "b", "B", "A", "0", "a b", "x=y", "it's (ok) +,-./:?",
-	"Zürich", "日本", "é", "ñandú", " ", "\U0001F600", "�", "a\x00b", "\x7f", "tab\there",
+	"Łukasz", "中", "Aleš", "са", "Ā", "中-文", "ŁA", "A Ł", "１２", "Zürich", "日本", "é", "ñandú", " ", "\U0001F600", "�", "a\x00b", "\x7f", "tab\there",
 	`a,b+c"d\e<f>g;h#i`, " lead", "trail ", "#hash", "  ", ",", "+", "\"", "\\", "<", ">", ";",
 	"*.example.com", "AT&T", "user@example.com", "under_score", "semi;colon", "100%", "a@", "a*",
 	strings.Repeat("x", 127), strings.Repeat("y", 128), strings.Repeat("z", 130), strings.Repeat("w", 256), strings.Repeat("é", 150),
@@ -617,9 +638,34 @@ var extraOids = [][]int{
 }
 var badOids = [][]int{{}, {2}, {3, 1}, {0, 40}, {1, 40, 1}, {1, 2147483647}, {2, 2147483568}, {2, 5, 2147483648}}
 
+// printable low bytes: a non-ASCII rune whose code point ends in one of these must still force UTF8String
+const printableLow = "abcxyzABCXYZ019 '()+,-./:=?"
+
+// lowByteStr builds a value from non-ASCII runes chosen by the low byte of their code point (every such low
+// byte is in the PrintableString set), optionally mixed with ASCII
+func lowByteStr(c *vh.Ctx) string {
+	bases := []rune{0x100, 0x400, 0x4e00, 0x9f00, 0xff00, 0x10400, 0x1f600}
+	var rs []rune
+	for n := 1 + c.Intn(4); n > 0; n-- {
+		lb := rune(printableLow[c.Intn(len(printableLow))])
+		if c.Intn(4) == 0 {
+			rs = append(rs, lb) // plain ASCII in between
+		} else {
+			rs = append(rs, bases[c.Intn(len(bases))]+lb)
+		}
+	}
+	if c.Intn(3) == 0 { // make sure at least one non-ASCII rune is present
+		rs = append(rs, bases[c.Intn(len(bases))]+rune(printableLow[c.Intn(len(printableLow))]))
+	}
+	return string(rs)
+}
+
 func pickStr(c *vh.Ctx, allowBad bool) string {
 	if allowBad && c.Intn(40) == 0 {
 		return badUTF8[c.Intn(len(badUTF8))]
+	}
+	if c.Intn(6) == 0 {
+		return lowByteStr(c)
 	}
 	if c.Intn(6) == 0 { // random short string over a small alphabet: many ties and shared prefixes for the SET OF sort
 		n := c.Intn(4)
@@ -859,7 +905,7 @@ func handBuilt() []struct {
 	add("set instead of sequence at top", derTLV(0x31, derTLV(0x31, derATV(cnBody, str(0x13, "a")))), true)
 	add("sequence instead of set", derTLV(0x30, derTLV(0x30, derATV(cnBody, str(0x13, "a")))), true)
 	add("set of sets", derTLV(0x30, derTLV(0x31, derTLV(0x31, []byte{}))), true)
-	add("primitive sequence", append([]byte{0x10, 0x00}), true)
+	add("primitive sequence", []byte{0x10, 0x00}, true)
 	add("trailing data after name", append(one(str(0x13, "a")), 0xde, 0xad), true)
 	add("length non-minimal 81 05", []byte{0x30, 0x81, 0x05, 0x31, 0x03, 0x30, 0x01, 0x00}, true)
 	add("length leading zero", []byte{0x30, 0x82, 0x00, 0x80}, true)
@@ -916,7 +962,7 @@ func gen(c *vh.Ctx) {
 	}
 	// fixed shapes first: 0/1/3 values in every field, each character class
 	for _, k := range []int{0, 1, 3} {
-		for _, vals := range [][]string{{"US", "Acme Co", "b"}, {"Zürich", "日本", "é"}, {`a,b+c"d\e<f>g;h#i `, " lead", "#x"}, {"b", "a", "aa"}, {"a@", "ab", "a*"}} {
+		for _, vals := range [][]string{{"US", "Acme Co", "b"}, {"Zürich", "日本", "é"}, {`a,b+c"d\e<f>g;h#i `, " lead", "#x"}, {"b", "a", "aa"}, {"a@", "ab", "a*"}, {"Łukasz", "中", "са"}, {"Aleš", "A Ł", "中-文"}} {
 			n := &NameIn{}
 			for i := range fields {
 				for j := 0; j < k; j++ {
@@ -966,21 +1012,31 @@ func gen(c *vh.Ctx) {
 		runFill(c, in)
 	}
 	var encoded [][]byte
+	var encodedStrOnly []bool // the standard library decodes more non-string ANY values (e.g. BOOLEAN) than the fork: compare on strings only
 	for i := 0; i < 200*scale; i++ {
 		s := genSeq(c, true)
 		in := Input{Kind: "enc", Seq: &s}
 		runEnc(c, in)
 		if b, ok := zMarshal(toSeq(s)); ok {
 			encoded = append(encoded, b)
+			strOnly := true
+			for _, r := range s {
+				for _, a := range r {
+					if a.Kind != "str" {
+						strOnly = false
+					}
+				}
+			}
+			encodedStrOnly = append(encodedStrOnly, strOnly)
 		}
 	}
 	hbs := handBuilt()
 	for _, h := range hbs {
 		runDec(c, Input{Kind: "dec", Bytes: vh.Hex(h.b), Note: h.note, Diff: h.diff})
 	}
-	for _, b := range encoded {
+	for i, b := range encoded {
 		if len(b) < 1500 {
-			runDec(c, Input{Kind: "dec", Bytes: vh.Hex(b), Diff: true})
+			runDec(c, Input{Kind: "dec", Bytes: vh.Hex(b), Diff: encodedStrOnly[i]})
 		}
 	}
 	for i := 0; i < 500*scale; i++ {
